@@ -9,7 +9,7 @@
 import AgeModel.Extracted.ExecSites
 import AgeModel.Extracted.Consts
 import AgeModel.SpecConsts
-import Proofs.GoTieMisc
+import Proofs.GoTiePlugName
 import Proofs.GoTieCli
 namespace AgeModel
 namespace Tie.C17
